@@ -537,7 +537,7 @@ def append_chars(run, m, F, E):
                         else:
                             full = [fl for fl in rec.get('fills', ()) if is_ch(s2, fl[2]) and s2.is_eq0(fl[0]) is True and s2.is_ge0(fl[1] - ln) is True]
                             if full:
-                                pass
+                                nb += 1             # counts as the emitting form of this writer
                             else:
                                 # the first unit not set in this call: position 0 when the block was not empty before
                                 prev = rec.get('prev')
